@@ -254,6 +254,13 @@ def _forbidden(rng, index, alg, enc, res, tr):
                               {"forbidden": "1pu", "alg": a, "enc": bad_enc, "form": form})
 
 
+_SIBLING_ALG = {"A128KW": "A128GCMKW", "A128GCMKW": "A128KW", "A192KW": "A192GCMKW", "A192GCMKW": "A192KW", "A256KW": "A256GCMKW",
+                "A256GCMKW": "A256KW", "RSA-OAEP": "RSA-OAEP-256", "RSA-OAEP-256": "RSA1_5", "RSA1_5": "RSA-OAEP",
+                "ECDH-ES+A128KW": "ECDH-ES+A256KW", "ECDH-ES+A192KW": "ECDH-ES+A128KW", "ECDH-ES+A256KW": "ECDH-ES+A192KW",
+                "PBES2-HS256+A128KW": "PBES2-HS512+A256KW", "PBES2-HS384+A192KW": "PBES2-HS256+A128KW", "PBES2-HS512+A256KW": "PBES2-HS384+A192KW",
+                "ECDH-1PU+A128KW": "ECDH-1PU+A256KW", "ECDH-1PU+A256KW": "ECDH-1PU+A192KW", "ECDH-1PU+A192KW": "ECDH-1PU+A128KW"}
+
+
 def _reencrypt(rng, index, alg, enc, form, res, tr):
     """a message object is encrypted more than once (recipients were added, the plaintext was replaced): every token so
     produced decrypts to the plaintext of its time, and a token already handed out is not changed by the later call.
@@ -287,6 +294,14 @@ def _reencrypt(rng, index, alg, enc, form, res, tr):
             snapshot = copy.deepcopy(first)
             stage = "second-encryption"
             obj.plaintext = pt1
+            sibling = _SIBLING_ALG.get(alg)
+            if sibling is not None and W.enc_ok(sibling, enc) and rng.chance(0.5):
+                # the same key serves a sibling algorithm: the application switches the recipient over before encrypting again
+                for name in ("iv", "tag", "p2s", "p2c", "epk"):
+                    obj.recipients[0].header.pop(name, None)
+                obj.recipients[0].header["alg"] = sibling
+                repro["second_alg"] = sibling
+                res.fired("message-object-encrypted-again-with-sibling-algorithm")
             second = jwe.encrypt_json(obj, None, registry=W.registry(), **skw)
             if first != snapshot:
                 res.violation(ID, "reencrypt:earlier-token-altered", "the token returned by the first encrypt_json() was changed by the second call on the "
